@@ -17,6 +17,14 @@ func identWithKey(r *core.Rand, key *rm.SigKey, cryptos []int) (rm.KAC, gen.Shap
 		// NULL certificate: DSA + ElGamal, the key occupies the whole 128-byte field
 	}
 	copy(k.Block[384-len(key.Pub):], key.Pub)
+	// the padding between the two keys is random in most identities and all zero in some (a signer
+	// whose own padding is zero does not notice a serialiser that writes zeros there)
+	if cpk, ok := rm.CryptoLen(cr); ok && r.Chance(1, 4) {
+		for j := cpk; j < 384-len(key.Pub); j++ {
+			k.Block[j] = 0
+		}
+		sh["padding"] = "zero"
+	}
 	return k, sh
 }
 
